@@ -2,9 +2,15 @@
 //! against what the (generated) platform supplied: platform dir with arbitrary entries, CNB_TARGET_* variables,
 //! buildpack plan, store, buildpack descriptor with metadata built from nested TOML values.
 //!
-//! fields: 0 phase | 1 hex(app)/hex(bp)/hex(layers) names | 2 os,arch,variant,dname,dver each `-` / `u<hex>` (valid UTF-8) /
-//! `n<hex>` (not UTF-8) | 3 platform: noplat / noenv / notdir / `-` / `hexname:kind:hexcontent,…` (kind f d lf ld dl) |
-//! 4 hex(plan TOML) 5 expected plan | 6 hex(store TOML) or none 7 expected store | 8 hex(buildpack.toml) 9 expected descriptor
+//! fields: 0 phase | 1 hex(app)/hex(bp)/hex(layers)[/flags] names; flags: `e` = `<platform>/env` is a symbolic link to the
+//! directory that holds the entries, `p` = the platform directory argument is a symbolic link | 2 os,arch,variant,dname,dver
+//! each `-` / `u<hex>` (valid UTF-8) / `n<hex>` (not UTF-8) | 3 platform: noplat / noenv / notdir / envdangling (env is a
+//! dangling link) / envlinkfile (env is a link to a regular file) / `-` / `hexname:kind:hexcontent[:hexsibling],…`; kinds:
+//! f file, d directory, de empty directory, lf link to file, lr relative link to file, l2 link to link to file, ls link to the
+//! sibling entry (a kind-f entry with the same content), hf hard link to a file outside, hs hard link to the sibling entry,
+//! ld link to directory, ld2 link to link to directory, dl dangling link, lo link to itself |
+//! 4 hex(plan TOML) 5 expected plan | 6 hex(store TOML) or none 7 expected store | 8 hex(buildpack.toml) 9 expected descriptor |
+//! 10 (optional) other variables of the process environment, `hexname=hexvalue,…` (none of them named like an input)
 use cnbv::*;
 use std::ffi::OsString;
 use std::os::unix::ffi::{OsStrExt, OsStringExt};
@@ -14,12 +20,19 @@ use std::process::{Command, Stdio};
 fn tbp_path() -> PathBuf { std::env::current_exe().unwrap().parent().unwrap().join("tbp") }
 fn os(b: &[u8]) -> OsString { OsString::from_vec(b.to_vec()) }
 
+/// variables the harness itself sets; an "other variable" of field 10 must not be one of them
+const INPUT_VARS: &[&str] = &["CNB_TARGET_OS", "CNB_TARGET_ARCH", "CNB_TARGET_ARCH_VARIANT", "CNB_TARGET_DISTRO_NAME", "CNB_TARGET_DISTRO_VERSION", "CNB_BUILDPACK_DIR", "TBP_OUT", "TBP_DETECT", "TBP_BUILD"];
+
 fn run_case(f: &[String]) -> String {
-    if f.len() != 10 { return "bad-fields".into(); }
+    if f.len() != 10 && f.len() != 11 { return "bad-fields".into(); }
     let phase = f[0].as_str();
     let tmp = tempfile::Builder::new().prefix("c06-").tempdir().unwrap();
     let t = std::fs::canonicalize(tmp.path()).unwrap();
-    let names: Vec<Vec<u8>> = f[1].split('/').map(|h| unhex(h).unwrap()).collect();
+    let dparts: Vec<&str> = f[1].split('/').collect();
+    if dparts.len() != 3 && dparts.len() != 4 { return "bad-fields".into(); }
+    let names: Vec<Vec<u8>> = dparts[..3].iter().map(|h| unhex(h).unwrap()).collect();
+    let flags = if dparts.len() == 4 { dparts[3] } else { "" };
+    if !flags.chars().all(|c| c == 'e' || c == 'p') { return "bad-fields".into(); }
     let (app, bp, layers) = (t.join(os(&names[0])), t.join(os(&names[1])), t.join(os(&names[2])));
     let (plat, lt, out, work) = (t.join("plat"), t.join("lt"), t.join("out"), t.join("work"));
     for d in [&app, &bp, &layers, &lt, &out, &work] { std::fs::create_dir(d).unwrap(); }
@@ -27,26 +40,52 @@ fn run_case(f: &[String]) -> String {
     let exe = bp.join("bin").join(phase);
     std::os::unix::fs::symlink(tbp_path(), &exe).unwrap();
     std::fs::write(bp.join("buildpack.toml"), unhex(&f[8]).unwrap()).unwrap();
-    // platform directory
+    // platform directory (`plat` is what the executable is given; with flag p it is a link to the real one)
+    let real_plat = if flags.contains('p') { t.join("plat-real") } else { plat.clone() };
+    let mk_plat = || { std::fs::create_dir(&real_plat).unwrap(); if flags.contains('p') { std::os::unix::fs::symlink(&real_plat, &plat).unwrap(); } };
     match f[3].as_str() {
         "noplat" => {}
-        "noenv" => std::fs::create_dir(&plat).unwrap(),
-        "notdir" => { std::fs::create_dir(&plat).unwrap(); std::fs::write(plat.join("env"), b"x").unwrap(); }
+        "noenv" => mk_plat(),
+        "notdir" => { mk_plat(); std::fs::write(real_plat.join("env"), b"x").unwrap(); }
+        "envdangling" => { mk_plat(); std::os::unix::fs::symlink(lt.join("missing-env"), real_plat.join("env")).unwrap(); }
+        "envlinkfile" => { mk_plat(); std::fs::write(lt.join("env-file"), b"x").unwrap(); std::os::unix::fs::symlink(lt.join("env-file"), real_plat.join("env")).unwrap(); }
         spec => {
-            std::fs::create_dir(&plat).unwrap();
-            let env = plat.join("env");
+            mk_plat();
+            // with flag e the entries live in <tmp>/lt/env-real and <platform>/env is a link to that directory
+            let env = if flags.contains('e') { lt.join("env-real") } else { real_plat.join("env") };
             std::fs::create_dir(&env).unwrap();
-            for (k, e) in split_list(spec, ",").iter().enumerate() {
-                let p: Vec<&str> = e.split(':').collect();
-                let path = env.join(os(&unhex(p[0]).unwrap()));
-                let content = unhex(p[2]).unwrap();
-                match p[1] {
-                    "f" => std::fs::write(&path, &content).unwrap(),
-                    "d" => { std::fs::create_dir(&path).unwrap(); std::fs::write(path.join("INSIDE"), b"not a variable").unwrap(); }
-                    "lf" => { let tgt = lt.join(format!("f{k}")); std::fs::write(&tgt, &content).unwrap(); std::os::unix::fs::symlink(&tgt, &path).unwrap(); }
-                    "ld" => { let tgt = lt.join(format!("d{k}")); std::fs::create_dir(&tgt).unwrap(); std::fs::write(tgt.join("INSIDE"), b"x").unwrap(); std::os::unix::fs::symlink(&tgt, &path).unwrap(); }
-                    "dl" => std::os::unix::fs::symlink(lt.join(format!("missing{k}")), &path).unwrap(),
-                    _ => return "bad-fields".into(),
+            if flags.contains('e') { std::os::unix::fs::symlink(&env, real_plat.join("env")).unwrap(); }
+            let up = if flags.contains('e') { "../" } else { "../../lt/" }; // from the entries' directory to <tmp>/lt/
+            let entries: Vec<Vec<&str>> = split_list(spec, ",").iter().map(|e| e.split(':').collect()).collect();
+            for pass in 0..2 {
+                for (k, p) in entries.iter().enumerate() {
+                    if p.len() != 3 && p.len() != 4 { return "bad-fields".into(); }
+                    if (p[1] == "hs") != (pass == 1) { continue; } // hard links to siblings once the siblings exist
+                    let (Some(name), Some(content)) = (unhex(p[0]), unhex(p[2])) else { return "bad-fields".into() };
+                    let path = env.join(os(&name));
+                    let sibling = if p.len() == 4 { let Some(sb) = unhex(p[3]) else { return "bad-fields".into() }; Some(sb) } else { None };
+                    if sibling.is_some() != matches!(p[1], "ls" | "hs") { return "bad-fields".into(); }
+                    if let Some(sb) = &sibling {
+                        // the sibling must be a regular-file entry of this listing with the same content
+                        if !entries.iter().any(|q| q.len() == 3 && q[1] == "f" && unhex(q[0]).as_deref() == Some(sb.as_slice()) && q[2] == p[2]) { return "bad-fields".into(); }
+                    }
+                    match p[1] {
+                        "f" => std::fs::write(&path, &content).unwrap(),
+                        "d" => { std::fs::create_dir(&path).unwrap(); std::fs::write(path.join("INSIDE"), b"not a variable").unwrap(); }
+                        "de" => std::fs::create_dir(&path).unwrap(),
+                        "lf" => { let tgt = lt.join(format!("f{k}")); std::fs::write(&tgt, &content).unwrap(); std::os::unix::fs::symlink(&tgt, &path).unwrap(); }
+                        "lr" => { std::fs::write(lt.join(format!("f{k}")), &content).unwrap(); std::os::unix::fs::symlink(format!("{up}f{k}"), &path).unwrap(); }
+                        "l2" => { std::fs::write(lt.join(format!("f{k}")), &content).unwrap(); std::os::unix::fs::symlink(format!("f{k}"), lt.join(format!("m{k}"))).unwrap(); std::os::unix::fs::symlink(lt.join(format!("m{k}")), &path).unwrap(); }
+                        "ls" => std::os::unix::fs::symlink(os(sibling.as_ref().unwrap()), &path).unwrap(),
+                        "hf" => { let tgt = lt.join(format!("h{k}")); std::fs::write(&tgt, &content).unwrap(); std::fs::hard_link(&tgt, &path).unwrap(); }
+                        "hs" => std::fs::hard_link(env.join(os(sibling.as_ref().unwrap())), &path).unwrap(),
+                        "ld" => { let tgt = lt.join(format!("d{k}")); std::fs::create_dir(&tgt).unwrap(); std::fs::write(tgt.join("INSIDE"), b"x").unwrap(); std::os::unix::fs::symlink(&tgt, &path).unwrap(); }
+                        "ld2" => { let tgt = lt.join(format!("d{k}")); std::fs::create_dir(&tgt).unwrap(); std::fs::write(tgt.join("INSIDE"), b"x").unwrap(); std::os::unix::fs::symlink(format!("d{k}"), lt.join(format!("md{k}"))).unwrap(); std::os::unix::fs::symlink(format!("{up}md{k}"), &path).unwrap(); }
+                        "dl" => std::os::unix::fs::symlink(lt.join(format!("missing{k}")), &path).unwrap(),
+                        "lo" => std::os::unix::fs::symlink(os(&name), &path).unwrap(),
+                        _ => return "bad-fields".into(),
+                    }
+                    if !matches!(p[1], "f" | "lf" | "lr" | "l2" | "ls" | "hf" | "hs") && !content.is_empty() { return "bad-fields".into(); }
                 }
             }
         }
@@ -61,6 +100,14 @@ fn run_case(f: &[String]) -> String {
     cmd.env_clear().current_dir(&app).stdin(Stdio::null()).stdout(Stdio::null()).stderr(Stdio::null());
     cmd.env("CNB_BUILDPACK_DIR", &bp).env("TBP_OUT", &out).env("TBP_DETECT", "pass").env("TBP_BUILD", "ok:");
     let vnames = ["CNB_TARGET_OS", "CNB_TARGET_ARCH", "CNB_TARGET_ARCH_VARIANT", "CNB_TARGET_DISTRO_NAME", "CNB_TARGET_DISTRO_VERSION"];
+    if f.len() == 11 {
+        for kv in split_list(&f[10], ",") {
+            let Some((n, v)) = kv.split_once('=') else { return "bad-fields".into() };
+            let (Some(n), Some(v)) = (unhex(n), unhex(v)) else { return "bad-fields".into() };
+            if n.is_empty() || n.contains(&b'=') || n.contains(&0) || v.contains(&0) || INPUT_VARS.iter().any(|x| x.as_bytes() == n.as_slice()) { return "bad-fields".into(); }
+            cmd.env(os(&n), os(&v));
+        }
+    }
     for (k, v) in f[2].split(',').enumerate() { if v != "-" { cmd.env(vnames[k], os(&unhex(&v[1..]).unwrap())); } }
     let status = cmd.status().unwrap();
     let kinds: Vec<String> = std::fs::read_to_string(out.join("on_error.count")).unwrap_or_default().lines().map(str::to_string).collect();
@@ -176,131 +223,231 @@ fn emit_table_at(key_path: &str, t: &[(String, TV)], r: &mut Rng) -> String {
 fn opt_s(o: &Option<String>) -> String { match o { None => "none".into(), Some(s) => format!("s:{}", hex(s.as_bytes())) } }
 fn opt_str(r: &mut Rng) -> Option<String> { if r.chance(1, 2) { Some(r.pick(STRS).to_string()) } else { None } }
 
-/// buildpack plan: (TOML, expected)
-fn gen_plan(r: &mut Rng) -> (String, String, usize) {
-    let n = if r.chance(1, 5) { 0 } else { 1 + r.below(3) as usize };
-    let mut text = String::new();
-    let mut exp = vec![];
-    if n == 0 && r.chance(1, 2) { text.push_str("entries = []\n"); }
-    for _ in 0..n {
-        let name = r.pick(STRS).to_string();
-        let md = gen_table(r, 1);
-        text.push_str(&format!("[[entries]]\nname = {}\n", emit_string(&name, r)));
-        if md.is_empty() && r.chance(1, 2) { /* metadata omitted: defaults to the empty table */ }
-        else if r.chance(1, 2) { text.push_str(&format!("metadata = {}\n", emit_inline(&TV::T(md.clone()), r))); }
-        else { text.push_str(&format!("[entries.metadata]\n{}", emit_body(&md, r))); }
-        exp.push(format!("{}~{}", hex(name.as_bytes()), canon_table(&md)));
+// ------------------------------------------------------------------------------------------------- documents as data
+fn tv_value(v: &TV) -> toml::Value {
+    use toml::Value;
+    match v {
+        TV::S(s) => Value::String(s.clone()), TV::I(i) => Value::Integer(*i), TV::B(b) => Value::Boolean(*b),
+        TV::F(k) => toml::from_str::<toml::Table>(&format!("x = {}", FLOATS[*k].0)).unwrap()["x"].clone(),
+        TV::D(k) => Value::Datetime(DATES[*k].parse().unwrap()),
+        TV::A(a) => Value::Array(a.iter().map(tv_value).collect()),
+        TV::T(t) => Value::Table(tv_table(t)),
     }
-    (text, format!("[{}]", exp.join(",")), n)
 }
+fn tv_table(t: &[(String, TV)]) -> toml::Table { let mut o = toml::Table::new(); for (k, v) in t { o.insert(k.clone(), tv_value(v)); } o }
+fn vs(x: &str) -> toml::Value { toml::Value::String(x.to_string()) }
+
+/// buildpack plan entries: (name, metadata; `None` = the key is left out)
+type PlanData = Vec<(String, Option<Vec<(String, TV)>>)>;
+fn plan_expected(p: &PlanData) -> String { format!("[{}]", p.iter().map(|(n, m)| format!("{}~{}", hex(n.as_bytes()), canon_table(m.as_deref().unwrap_or(&[])))).collect::<Vec<_>>().join(",")) }
+fn plan_value(p: &PlanData, explicit_empty: bool) -> toml::Table {
+    let mut doc = toml::Table::new();
+    if !p.is_empty() || explicit_empty {
+        doc.insert("entries".into(), toml::Value::Array(p.iter().map(|(n, m)| { let mut e = toml::Table::new(); e.insert("name".into(), vs(n)); if let Some(m) = m { e.insert("metadata".into(), toml::Value::Table(tv_table(m))); } toml::Value::Table(e) }).collect()));
+    }
+    doc
+}
+fn draw_plan(r: &mut Rng) -> PlanData {
+    let n = if r.chance(1, 5) { 0 } else { 1 + r.below(3) as usize };
+    (0..n).map(|_| { let name = r.pick(STRS).to_string(); let md = gen_table(r, 1); (name, if md.is_empty() && r.chance(1, 2) { None } else { Some(md) }) }).collect()
+}
+fn plan_text(p: &PlanData, r: &mut Rng) -> String {
+    let mut text = String::new();
+    if p.is_empty() && r.chance(1, 2) { text.push_str("entries = []\n"); }
+    for (name, md) in p {
+        text.push_str(&format!("[[entries]]\nname = {}\n", emit_string(name, r)));
+        match md {
+            None => {}
+            Some(md) => if r.chance(1, 2) { text.push_str(&format!("metadata = {}\n", emit_inline(&TV::T(md.clone()), r))); } else { text.push_str(&format!("[entries.metadata]\n{}", emit_body(md, r))); }
+        }
+    }
+    text
+}
+/// buildpack plan: (TOML, expected, number of entries)
+fn gen_plan(r: &mut Rng) -> (String, String, usize) { let p = draw_plan(r); (plan_text(&p, r), plan_expected(&p), p.len()) }
 fn gen_store(r: &mut Rng) -> (String, String) {
     let md = gen_table(r, 1);
     (emit_table_at("metadata", &md, r), canon_table(&md))
 }
-fn gen_desc(r: &mut Rng) -> (String, String, bool) {
-    let id = *r.pick(&["tbp/c06", "a", "x.y/z-1", "heroku/ruby", "App", "config.d"]);
-    let version = *r.pick(&["0.0.1", "1.2.3", "10.20.30", "0.0.0"]);
+
+struct Desc {
+    id: String, version: String, name: Option<String>, homepage: Option<String>, description: Option<String>, clear_env: Option<bool>,
+    keywords: Vec<String>, keywords_key: bool, licenses: Vec<(Option<String>, Option<String>)>, sbom: Vec<usize>, sbom_key: bool,
+    stacks: Vec<(String, Vec<String>, bool)>, targets: Vec<(Option<String>, Option<String>, Option<String>, Vec<(String, String)>)>, metadata: Option<Vec<(String, TV)>>,
+}
+const SBOM_FM: [(&str, &str); 3] = [("application/vnd.cyclonedx+json", "cdx"), ("application/spdx+json", "spdx"), ("application/vnd.syft+json", "syft")];
+fn draw_desc(r: &mut Rng) -> Desc {
+    let id = r.pick(&["tbp/c06", "a", "x.y/z-1", "heroku/ruby", "App", "config.d", "Sbom", "0", "A/B/C", "build"]).to_string();
+    let version = r.pick(&["0.0.1", "1.2.3", "10.20.30", "0.0.0", "18446744073709551615.0.1"]).to_string();
     let (name, homepage, description) = (opt_str(r), opt_str(r), opt_str(r));
     let clear_env: Option<bool> = *r.pick(&[None, Some(true), Some(false)]);
     let keywords: Vec<String> = (0..r.below(3)).map(|_| r.pick(STRS).to_string()).collect();
     let licenses: Vec<(Option<String>, Option<String>)> = (0..r.below(3)).map(|_| (opt_str(r), opt_str(r))).collect();
-    let fm = [("application/vnd.cyclonedx+json", "cdx"), ("application/spdx+json", "spdx"), ("application/vnd.syft+json", "syft")];
     let sbom: Vec<usize> = (0..r.below(4)).map(|_| r.below(3) as usize).collect();
-    let stacks: Vec<(String, Vec<String>)> = (0..r.below(3)).map(|_| (r.pick(&["*", "heroku-24", "io.buildpacks.stacks.jammy", "ü"]).to_string(), (0..r.below(3)).map(|_| r.pick(&["build:jq", "wget", "run:x y"]).to_string()).collect())).collect();
-    let targets: Vec<(Option<String>, Option<String>, Option<String>, Vec<(String, String)>)> = (0..r.below(3)).map(|_| (opt_str(r), opt_str(r), opt_str(r), (0..r.below(3)).map(|_| (r.pick(&["ubuntu", "alpine", ""]).to_string(), r.pick(&["24.04", "3.19", "ü"]).to_string())).collect())).collect();
+    let stacks: Vec<(String, Vec<String>, bool)> = (0..r.below(3)).map(|_| (r.pick(&["*", "heroku-24", "io.buildpacks.stacks.jammy", "ü"]).to_string(), (0..r.below(3)).map(|_| r.pick(&["build:jq", "wget", "run:x y"]).to_string()).collect(), r.chance(1, 3))).collect();
+    let targets = (0..r.below(3)).map(|_| (opt_str(r), opt_str(r), opt_str(r), (0..r.below(3)).map(|_| (r.pick(&["ubuntu", "alpine", ""]).to_string(), r.pick(&["24.04", "3.19", "ü"]).to_string())).collect())).collect();
     let metadata: Option<Vec<(String, TV)>> = if r.chance(1, 5) { None } else { Some(gen_table(r, 1)) };
+    Desc { id, version, name, homepage, description, clear_env, keywords, keywords_key: r.chance(1, 3), licenses, sbom, sbom_key: r.chance(1, 3), stacks, targets, metadata }
+}
+fn desc_text(d: &Desc, r: &mut Rng) -> String {
     let mut t = String::from("api = \"0.10\"\n");
-    let md_inline_first = metadata.is_some() && r.chance(1, 4);
-    if md_inline_first { t.push_str(&format!("metadata = {}\n", emit_inline(&TV::T(metadata.clone().unwrap()), r))); }
-    t.push_str(&format!("\n[buildpack]\nid = \"{id}\"\nversion = \"{version}\"\n"));
-    if let Some(s) = &name { t.push_str(&format!("name = {}\n", emit_string(s, r))); }
-    if let Some(s) = &homepage { t.push_str(&format!("homepage = {}\n", emit_string(s, r))); }
-    if let Some(b) = clear_env { t.push_str(&format!("clear-env = {b}\n")); }
-    if let Some(s) = &description { t.push_str(&format!("description = {}\n", emit_string(s, r))); }
-    if !keywords.is_empty() || r.chance(1, 3) { t.push_str(&format!("keywords = {}\n", emit_inline(&TV::A(keywords.iter().map(|k| TV::S(k.clone())).collect()), r))); }
-    if !sbom.is_empty() || r.chance(1, 3) { t.push_str(&format!("sbom-formats = [{}]\n", sbom.iter().map(|k| format!("\"{}\"", fm[*k].0)).collect::<Vec<_>>().join(", "))); }
-    for (ty, uri) in &licenses {
+    let md_inline_first = d.metadata.is_some() && r.chance(1, 4);
+    if md_inline_first { t.push_str(&format!("metadata = {}\n", emit_inline(&TV::T(d.metadata.clone().unwrap()), r))); }
+    t.push_str(&format!("\n[buildpack]\nid = \"{}\"\nversion = \"{}\"\n", d.id, d.version));
+    if let Some(s) = &d.name { t.push_str(&format!("name = {}\n", emit_string(s, r))); }
+    if let Some(s) = &d.homepage { t.push_str(&format!("homepage = {}\n", emit_string(s, r))); }
+    if let Some(b) = d.clear_env { t.push_str(&format!("clear-env = {b}\n")); }
+    if let Some(s) = &d.description { t.push_str(&format!("description = {}\n", emit_string(s, r))); }
+    if !d.keywords.is_empty() || d.keywords_key { t.push_str(&format!("keywords = {}\n", emit_inline(&TV::A(d.keywords.iter().map(|k| TV::S(k.clone())).collect()), r))); }
+    if !d.sbom.is_empty() || d.sbom_key { t.push_str(&format!("sbom-formats = [{}]\n", d.sbom.iter().map(|k| format!("\"{}\"", SBOM_FM[*k].0)).collect::<Vec<_>>().join(", "))); }
+    for (ty, uri) in &d.licenses {
         t.push_str("[[buildpack.licenses]]\n");
         if let Some(s) = ty { t.push_str(&format!("type = {}\n", emit_string(s, r))); }
         if let Some(s) = uri { t.push_str(&format!("uri = {}\n", emit_string(s, r))); }
     }
-    for (sid, mixins) in &stacks {
+    for (sid, mixins, key) in &d.stacks {
         t.push_str(&format!("[[stacks]]\nid = {}\n", emit_string(sid, r)));
-        if !mixins.is_empty() || r.chance(1, 3) { t.push_str(&format!("mixins = [{}]\n", mixins.iter().map(|m| basic_string(m)).collect::<Vec<_>>().join(", "))); }
+        if !mixins.is_empty() || *key { t.push_str(&format!("mixins = [{}]\n", mixins.iter().map(|m| basic_string(m)).collect::<Vec<_>>().join(", "))); }
     }
-    for (o, a, v, distros) in &targets {
+    for (o, a, v, distros) in &d.targets {
         t.push_str("[[targets]]\n");
         if let Some(s) = o { t.push_str(&format!("os = {}\n", emit_string(s, r))); }
         if let Some(s) = a { t.push_str(&format!("arch = {}\n", emit_string(s, r))); }
         if let Some(s) = v { t.push_str(&format!("variant = {}\n", emit_string(s, r))); }
         for (n, ver) in distros { t.push_str(&format!("[[targets.distros]]\nname = {}\nversion = {}\n", emit_string(n, r), emit_string(ver, r))); }
     }
-    if let (Some(md), false) = (&metadata, md_inline_first) { t.push_str(&format!("[metadata]\n{}", emit_body(md, r))); }
-    let mut sf: Vec<&str> = sbom.iter().map(|k| fm[*k].1).collect();
+    if let (Some(md), false) = (&d.metadata, md_inline_first) { t.push_str(&format!("[metadata]\n{}", emit_body(md, r))); }
+    t
+}
+fn desc_value(d: &Desc) -> toml::Table {
+    use toml::Value;
+    let strs = |xs: &[String]| Value::Array(xs.iter().map(|x| vs(x)).collect());
+    let mut b = toml::Table::new();
+    b.insert("id".into(), vs(&d.id)); b.insert("version".into(), vs(&d.version));
+    for (k, v) in [("name", &d.name), ("homepage", &d.homepage), ("description", &d.description)] { if let Some(x) = v { b.insert(k.into(), vs(x)); } }
+    if let Some(c) = d.clear_env { b.insert("clear-env".into(), Value::Boolean(c)); }
+    if !d.keywords.is_empty() || d.keywords_key { b.insert("keywords".into(), strs(&d.keywords)); }
+    if !d.sbom.is_empty() || d.sbom_key { b.insert("sbom-formats".into(), Value::Array(d.sbom.iter().map(|k| vs(SBOM_FM[*k].0)).collect())); }
+    if !d.licenses.is_empty() { b.insert("licenses".into(), Value::Array(d.licenses.iter().map(|(ty, uri)| { let mut l = toml::Table::new(); if let Some(x) = ty { l.insert("type".into(), vs(x)); } if let Some(x) = uri { l.insert("uri".into(), vs(x)); } Value::Table(l) }).collect())); }
+    let mut doc = toml::Table::new();
+    doc.insert("api".into(), vs("0.10"));
+    doc.insert("buildpack".into(), Value::Table(b));
+    if !d.stacks.is_empty() { doc.insert("stacks".into(), Value::Array(d.stacks.iter().map(|(id, mixins, key)| { let mut s = toml::Table::new(); s.insert("id".into(), vs(id)); if !mixins.is_empty() || *key { s.insert("mixins".into(), strs(mixins)); } Value::Table(s) }).collect())); }
+    if !d.targets.is_empty() { doc.insert("targets".into(), Value::Array(d.targets.iter().map(|(o, a, v, distros)| {
+        let mut t = toml::Table::new();
+        for (k, x) in [("os", o), ("arch", a), ("variant", v)] { if let Some(x) = x { t.insert(k.into(), vs(x)); } }
+        if !distros.is_empty() { t.insert("distros".into(), Value::Array(distros.iter().map(|(n, ver)| { let mut dd = toml::Table::new(); dd.insert("name".into(), vs(n)); dd.insert("version".into(), vs(ver)); Value::Table(dd) }).collect())); }
+        Value::Table(t) }).collect())); }
+    if let Some(m) = &d.metadata { doc.insert("metadata".into(), Value::Table(tv_table(m))); }
+    doc
+}
+fn desc_expected(d: &Desc) -> String {
+    let mut sf: Vec<&str> = d.sbom.iter().map(|k| SBOM_FM[*k].1).collect();
     sf.sort(); sf.dedup();
-    let exp = format!("api:0.10|id:{}|name:{}|version:{}|homepage:{}|clearenv:{}|description:{}|keywords:[{}]|licenses:[{}]|sbomformats:[{}]|stacks:[{}]|targets:[{}]|metadata:{}",
-        hex(id.as_bytes()), opt_s(&name), hex(version.as_bytes()), opt_s(&homepage), u8::from(clear_env == Some(true)), opt_s(&description),
-        keywords.iter().map(|k| hex(k.as_bytes())).collect::<Vec<_>>().join(","),
-        licenses.iter().map(|(a, b)| format!("{}/{}", opt_s(a), opt_s(b))).collect::<Vec<_>>().join(","), sf.join(","),
-        stacks.iter().map(|(s, m)| format!("{}/{}", hex(s.as_bytes()), m.iter().map(|x| hex(x.as_bytes())).collect::<Vec<_>>().join("+"))).collect::<Vec<_>>().join(","),
-        targets.iter().map(|(o, a, v, d)| format!("{}/{}/{}/{}", opt_s(o), opt_s(a), opt_s(v), d.iter().map(|(n, x)| format!("{}@{}", hex(n.as_bytes()), hex(x.as_bytes()))).collect::<Vec<_>>().join("+"))).collect::<Vec<_>>().join(","),
-        match &metadata { None => "none".to_string(), Some(m) => canon_table(m) });
-    (t, exp, metadata.as_ref().is_some_and(|m| !m.is_empty()))
+    format!("api:0.10|id:{}|name:{}|version:{}|homepage:{}|clearenv:{}|description:{}|keywords:[{}]|licenses:[{}]|sbomformats:[{}]|stacks:[{}]|targets:[{}]|metadata:{}",
+        hex(d.id.as_bytes()), opt_s(&d.name), hex(d.version.as_bytes()), opt_s(&d.homepage), u8::from(d.clear_env == Some(true)), opt_s(&d.description),
+        d.keywords.iter().map(|k| hex(k.as_bytes())).collect::<Vec<_>>().join(","),
+        d.licenses.iter().map(|(a, b)| format!("{}/{}", opt_s(a), opt_s(b))).collect::<Vec<_>>().join(","), sf.join(","),
+        d.stacks.iter().map(|(s, m, _)| format!("{}/{}", hex(s.as_bytes()), m.iter().map(|x| hex(x.as_bytes())).collect::<Vec<_>>().join("+"))).collect::<Vec<_>>().join(","),
+        d.targets.iter().map(|(o, a, v, dd)| format!("{}/{}/{}/{}", opt_s(o), opt_s(a), opt_s(v), dd.iter().map(|(n, x)| format!("{}@{}", hex(n.as_bytes()), hex(x.as_bytes()))).collect::<Vec<_>>().join("+"))).collect::<Vec<_>>().join(","),
+        match &d.metadata { None => "none".to_string(), Some(m) => canon_table(m) })
+}
+fn gen_desc(r: &mut Rng) -> (String, String, bool) {
+    let d = draw_desc(r);
+    (desc_text(&d, r), desc_expected(&d), d.metadata.as_ref().is_some_and(|m| !m.is_empty()))
 }
 
 // ------------------------------------------------------------------------------------------------- platform / target
-const NAMES: &[&[u8]] = &[b"FOO", b"A_B", b"PATH", b"a.b", b".hidden", b"my var", b"V\xc3\x84R", b"\xe5\xa4\x89\xe6\x95\xb0", b"A=B", b"x.append", b"lower", b"UPPER.default", b"a\nb", b"*", b"-dash", b"\xffraw", b"\xc3", b"trailing ", b"..."];
-const GOOD: &[&[u8]] = &[b"", b"value", b"a\nb\n", b"trailing newline\n", b"\n", b"\xc3\xbc\xe2\x82\xac", b"\xed\x9f\xbf", b"\xf4\x8f\xbf\xbf", b"\xe0\xa0\x80", b"\xf0\x90\x80\x80", b"\x00", b"/bin:/usr/bin", b"with \"quotes\" and \\", b"\xef\xbb\xbfbom"];
-const BAD: &[&[u8]] = &[b"\xff", b"ab\xc3", b"\xc0\x80", b"\xed\xa0\x80", b"\xf4\x90\x80\x80", b"\x80", b"ok\xfe\xffend", b"\xe2\x82", b"\xf5\x80\x80\x80", b"\xc1\xbf", b"\xe0\x9f\xbf", b"\xf0\x8f\xbf\xbf"];
+const NAMES: &[&[u8]] = &[b"FOO", b"A_B", b"PATH", b"a.b", b".hidden", b"my var", b"V\xc3\x84R", b"\xe5\xa4\x89\xe6\x95\xb0", b"A=B", b"x.append", b"lower", b"UPPER.default", b"a\nb", b"*", b"-dash", b"\xffraw", b"\xc3", b"trailing ", b"...",
+    // value pool added by the generator audit: percent / plus / leading and trailing dots and blanks / k8s-style dotted names / line ends / BOM /
+    // control characters / case variants / look-alikes / composed and decomposed / names of inputs and of well-known variables / shell syntax
+    b"%", b"FOO%20BAR", b"A+B", b"+", b" leading", b"trailing.", b".leading", b"..data", b"..2024_01_01_00_00_00.123456789", b"....", b"FOO\n", b"FOO\r", b"FOO\r\n", b"\xef\xbb\xbfFOO", b"FOO\xef\xbb\xbf", b"\x01", b"\x7f", b"\x1b[0m",
+    b"foo", b"Foo", b"fOO", b"Path", b"path", b"\xef\xbc\xa6\xef\xbc\xaf\xef\xbc\xaf", b"e\xcc\x81", b"\xc3\xa9", b"CNB_TARGET_OS", b"CNB_TARGET_ARCH_VARIANT", b"CNB_BUILDPACK_DIR", b"CNB_STACK_ID", b"HOME", b"LD_PRELOAD", b"BP_", b"_", b"-", b"--help", b"~", b"$X",
+    b"${X}", b"a:b", b"a,b", b"a;b", b"'q'", b"\"q\"", b"\\", b"a\\b", b"#", b"!", b"0", b"1VAR", b"\xe2\x80\xae", b"\xe2\x80\x8b", b"LEGACY_\xe9_PATH", b"\xfe", b"\xed\xa0\x80", b"f0", b"f1", b"INSIDE", b"env", b"\xf0\x9f\xa6\x80", b"A B\tC"];
+const GOOD: &[&[u8]] = &[b"", b"value", b"a\nb\n", b"trailing newline\n", b"\n", b"\xc3\xbc\xe2\x82\xac", b"\xed\x9f\xbf", b"\xf4\x8f\xbf\xbf", b"\xe0\xa0\x80", b"\xf0\x90\x80\x80", b"\x00", b"/bin:/usr/bin", b"with \"quotes\" and \\", b"\xef\xbb\xbfbom",
+    // added: CR / CRLF in every position, BOM alone / twice / inside / at the end, control characters, padding, shell and TOML syntax, realistic multi-line values
+    b"value\r\n", b"value\r", b"\r\n", b"\r", b"\r\nvalue", b"a\r\nb\r\n", b"a\n\nb\n\n", b"\xef\xbb\xbf", b"\xef\xbb\xbf\xef\xbb\xbfx", b"x\xef\xbb\xbfy", b"x\xef\xbb\xbf", b"\xef\xbb\xbf\n", b" value ", b"\tvalue\t", b"  ", b"\t", b"value\n\n\n",
+    b"\x1b[31mred\x1b[0m", b"\x07\x08\x0b\x0c", b"\x7f", b"\x1a", b"\xc2\x85", b"\xe2\x80\xa8line\xe2\x80\xa9", b"a\x00b", b"\x00\x00", b"\x00\n", b"=", b"A=B", b"'single'", b"$HOME", b"${X:-y}", b"%PATH%", b"~", b"`id`", b"$(id)", b"true", b"false", b"0", b"-1", b"null",
+    b"{\"json\": [1, 2]}", b"key = \"toml\"\n[table]\n", b"-----BEGIN CERTIFICATE-----\nMIIB\n-----END CERTIFICATE-----\n", b"e\xcc\x81", b"\xc3\xa9", b"\xef\xbc\xa1", b"\xf0\x9f\xa6\x80", b"\xe2\x80\xaertl", b"\xef\xbf\xbd", b"\xef\xbf\xbf", b"\xee\x80\x80"];
+const BAD: &[&[u8]] = &[b"\xff", b"ab\xc3", b"\xc0\x80", b"\xed\xa0\x80", b"\xf4\x90\x80\x80", b"\x80", b"ok\xfe\xffend", b"\xe2\x82", b"\xf5\x80\x80\x80", b"\xc1\xbf", b"\xe0\x9f\xbf", b"\xf0\x8f\xbf\xbf",
+    // added: truncated BOM, BOM then invalid, UTF-16 with BOM, Latin-1, lone continuation after valid text, invalid after a NUL / a newline / CRLF
+    b"\xef\xbb", b"\xef\xbb\xbf\xff", b"\xff\xfev\x00a\x00l\x00", b"\xfe\xff\x00v", b"caf\xe9", b"\xa0", b"valid then \x80", b"\x00\xff", b"line\n\xff", b"line\r\n\xc3", b"\xed\xbf\xbf", b"\xf8\x88\x80\x80\x80"];
+
+const TARGET_POOL: [&[&[u8]]; 5] = [
+    &[b"linux", b"windows", b"", b"\xc3\xbc", b"darwin", b"freebsd", b"Linux", b"LINUX", b"Windows", b"WINDOWS", b" linux", b"linux ", b"linux\n", b"linux\r\n", b"*", b"any", b"l\xc4\xb1nux", b"\xef\xbd\x8c\xef\xbd\x89\xef\xbd\x8e\xef\xbd\x95\xef\xbd\x98", b"\xef\xbb\xbflinux", b"win32", b"wasi", b"linux/amd64", b"0", b"true"],
+    &[b"amd64", b"arm64", b"a b", b"arm", b"386", b"x86_64", b"aarch64", b"ppc64le", b"s390x", b"riscv64", b"mips64le", b"loong64", b"wasm", b"AMD64", b"Arm64", b"", b"*", b"amd64\n", b" arm64", b"\xc3\xa4md64"],
+    &[b"v8", b"v7", b"", b"v6", b"v5", b"V8", b"v8.2", b"v1", b"v2", b"v3", b"v4", b"8", b"*", b" v8", b"v8\n", b"\xc2\xb5"],
+    &[b"ubuntu", b"alpine", b"", b"dist\nro", b"debian", b"Ubuntu", b"UBUNTU", b"rhel", b"red hat", b"centos", b"fedora", b"amzn", b"bionic", b"windows", b"*", b" ubuntu", b"ubuntu ", b"\xe2\x98\x83"],
+    &[b"24.04", b"3.19", b"", b"22.04", b"20.04", b"18.04", b"3.19.1", b"edge", b"12", b"bookworm", b"rolling", b"10.0.20348.1970", b"24.04 ", b" 24.04", b"24.04\n", b"\xd9\xa2\xd9\xa4", b"*", b"0", b"v3"],
+];
 
 fn is_utf8(b: &[u8]) -> bool { std::str::from_utf8(b).is_ok() }
+fn var_field(vars: &[Option<Vec<u8>>]) -> String { vars.iter().map(|v| match v { None => "-".to_string(), Some(b) => format!("{}{}", if is_utf8(b) { 'u' } else { 'n' }, hex(b)) }).collect::<Vec<_>>().join(",") }
+fn entry(name: &[u8], kind: &str, content: &[u8]) -> String { format!("{}:{}:{}", hex(name), kind, hex(content)) }
+fn entry_sib(name: &[u8], kind: &str, content: &[u8], sib: &[u8]) -> String { format!("{}:{}:{}:{}", hex(name), kind, hex(content), hex(sib)) }
+const VAR_KINDS: &[&str] = &["f", "lf", "lr", "l2", "hf"];
+fn holds_var(kind: &str) -> bool { VAR_KINDS.contains(&kind) || kind == "ls" || kind == "hs" }
 
-fn gen_case(r: &mut Rng, kind: &str, force: Option<&str>) -> Case {
-    let phase = if r.chance(1, 2) { "build" } else { "detect" };
-    let dirs = format!("{}/{}/{}", hex(r.pick(&["a-app", "a-my app", "a-\u{fc}", "a-app.d"]).as_bytes()), hex(r.pick(&["b-bp", "b-build pack", "b-\u{65e5}"]).as_bytes()), hex(r.pick(&["l-layers", "l-lay ers"]).as_bytes()));
-    // target variables
-    let good_vals: [&[&[u8]]; 5] = [&[b"linux", b"windows", b"", b"\xc3\xbc"], &[b"amd64", b"arm64", b"a b"], &[b"v8", b"v7", b""], &[b"ubuntu", b"alpine", b"", b"dist\nro"], &[b"24.04", b"3.19", b""]];
-    let mut vars: Vec<Option<Vec<u8>>> = (0..5).map(|k| Some(r.pick(good_vals[k]).to_vec())).collect();
+fn gen_case(r: &mut Rng, kind: &str, force: Option<&str>) -> Case { gen_case_phase(r, kind, force, None) }
+
+fn gen_case_phase(r: &mut Rng, kind: &str, force: Option<&str>, phase: Option<&'static str>) -> Case {
+    let phase = phase.unwrap_or(if r.chance(1, 2) { "build" } else { "detect" });
+    let mut dirs = format!("{}/{}/{}", hex(r.pick(&["a-app", "a-my app", "a-\u{fc}", "a-app.d"]).as_bytes()), hex(r.pick(&["b-bp", "b-build pack", "b-\u{65e5}"]).as_bytes()), hex(r.pick(&["l-layers", "l-lay ers"]).as_bytes()));
+    // target variables: the first three / two values of each pool are the common ones, the rest come in one case in three
+    let wide = r.chance(1, 3);
+    let mut vars: Vec<Option<Vec<u8>>> = (0..5).map(|k| Some(if wide { r.pick(TARGET_POOL[k]).to_vec() } else { r.pick(&TARGET_POOL[k][..3]).to_vec() })).collect();
     if r.chance(1, 2) { vars[2] = None; }
     let mandatory = [0usize, 1, 3, 4];
     let tclass = match force.unwrap_or(*r.pick(&["ok", "ok", "ok", "ok", "ok", "ok", "ok", "ok", "ok", "ok", "ok", "ok", "ok", "ok", "ok", "ok", "missing", "missing", "nonutf8", "d7", "mix"])) {
         "missing" => { vars[*r.pick(&mandatory)] = None; "missing" }
-        "nonutf8" => { vars[*r.pick(&mandatory)] = Some(r.pick(&[&b"\xff\xfe"[..], b"lin\xc3", b"\xed\xa0\x80"]).to_vec()); "nonutf8" }
+        "nonutf8" => { vars[*r.pick(&mandatory)] = Some(r.pick(&[&b"\xff\xfe"[..], b"lin\xc3", b"\xed\xa0\x80", b"linux\xff", b"\xc0\xaf", b"caf\xe9"]).to_vec()); "nonutf8" }
         "d7" => { vars[2] = Some(r.pick(&[&b"\xff"[..], b"v\xc3", b"\xc0\x80", b"v8\xfe"]).to_vec()); "d7" }
         "mix" => { for k in 0..5 { match r.below(6) { 0 => vars[k] = None, 1 => vars[k] = Some(b"\xffx".to_vec()), _ => {} } } "mix" }
         _ => "ok",
     };
-    let vfield = vars.iter().map(|v| match v { None => "-".to_string(), Some(b) => format!("{}{}", if is_utf8(b) { 'u' } else { 'n' }, hex(b)) }).collect::<Vec<_>>().join(",");
+    let vfield = var_field(&vars);
     // platform dir
     let mut nbad = 0;
     let mut kinds_seen = std::collections::BTreeSet::new();
     let mut nvars = 0;
-    let pfield = match r.below(20) {
+    let pfield = match r.below(24) {
         0 => "noplat".to_string(),
         1 => "noenv".to_string(),
         2 => "notdir".to_string(),
+        3 => if r.chance(1, 2) { "envdangling".to_string() } else { "envlinkfile".to_string() },
         _ => {
             let n = if r.chance(1, 10) { 0 } else { 1 + r.below(7) as usize };
             let mut names: Vec<Vec<u8>> = vec![];
             let mut es = vec![];
+            let mut plain: Vec<(Vec<u8>, Vec<u8>)> = vec![]; // kind-f entries so far (name, content): what ls / hs may alias
             let bad_rate = if r.chance(1, 8) { 3 } else { 0 }; // a minority of platform dirs hold a non-UTF-8 file
             for _ in 0..n {
                 let mut nm = r.pick(NAMES).to_vec();
                 if r.chance(1, 6) { nm.extend_from_slice(format!("_{}", r.below(100)).as_bytes()); }
                 if names.contains(&nm) { continue; }
                 names.push(nm.clone());
-                let k = *r.pick(&["f", "f", "f", "f", "f", "d", "lf", "lf", "ld", "dl"]);
-                let content: Vec<u8> = if k == "f" || k == "lf" {
+                let k = *r.pick(&["f", "f", "f", "f", "f", "f", "d", "de", "lf", "lf", "lr", "l2", "hf", "ls", "hs", "ld", "ld2", "dl", "lo"]);
+                if (k == "ls" || k == "hs") && !plain.is_empty() {
+                    let (sn, sc) = r.pick(&plain).clone();
+                    nvars += 1; if !is_utf8(&sc) { nbad += 1; }
+                    kinds_seen.insert(k);
+                    es.push(entry_sib(&nm, k, &sc, &sn));
+                    continue;
+                }
+                let k = if k == "ls" || k == "hs" { "f" } else { k };
+                let content: Vec<u8> = if holds_var(k) {
                     nvars += 1;
                     if r.below(10) < bad_rate { nbad += 1; r.pick(BAD).to_vec() } else if r.chance(1, 30) { vec![b'x'; 20000] } else { r.pick(GOOD).to_vec() }
                 } else { vec![] };
+                if k == "f" { plain.push((nm.clone(), content.clone())); }
                 kinds_seen.insert(k);
-                es.push(format!("{}:{}:{}", hex(&nm), k, hex(&content)));
+                es.push(entry(&nm, k, &content));
             }
+            if r.chance(1, 8) { dirs.push_str(*r.pick(&["/e", "/p", "/ep"])); }
             join(",", &es)
         }
     };
-    let pclass = match pfield.as_str() { "noplat" | "noenv" | "notdir" => pfield.clone(), "-" => "empty".into(), _ => "entries".into() };
+    let pclass = match pfield.as_str() { "noplat" | "noenv" | "notdir" | "envdangling" | "envlinkfile" => pfield.clone(), "-" => "empty".into(), _ => "entries".into() };
     let (ptext, pexp, nplan) = gen_plan(r);
     let has_store = r.chance(2, 3);
     let (stext, sexp) = gen_store(r);
@@ -316,13 +463,250 @@ fn gen_case(r: &mut Rng, kind: &str, force: Option<&str>) -> Case {
         nontrivial: !kinds_seen.is_empty() || unrep }
 }
 
+// ------------------------------------------------------------------------------------------------- directed families
+/// a base case (all target variables valid, nothing unrepresentable) whose named input a directed family then replaces
+fn base_case(r: &mut Rng, family: &str, phase: Option<&'static str>) -> Case {
+    let mut c = gen_case_phase(r, family, Some("ok"), phase);
+    // the base listing must not hold an invalid file (the family decides what is unrepresentable)
+    if c.tags.iter().any(|(k, v)| k == "badfiles" && v != "0") { c.fields[3] = entry(b"BASE", "f", b"v"); }
+    c.tags.retain(|(k, _)| k == "kind" || k == "phase");
+    c.nontrivial = true;
+    c
+}
+fn with_listing(r: &mut Rng, family: &str, sub: &str, listing: Vec<String>, flags: &str) -> Case {
+    let mut c = base_case(r, family, None);
+    c.fields[3] = join(",", &listing);
+    let d: Vec<&str> = c.fields[1].split('/').collect();
+    c.fields[1] = if flags.is_empty() { d[..3].join("/") } else { format!("{}/{flags}", d[..3].join("/")) };
+    c.tags.push(("sub".into(), sub.into()));
+    c.tags.push(("n".into(), listing.len().to_string()));
+    c
+}
+fn filler(n: usize, byte: u8) -> Vec<u8> { vec![byte; n] }
+/// `n` bytes of 3-byte characters after `pad` ASCII bytes: some character straddles every power-of-two boundary for a suitable pad
+fn multibyte(n: usize, pad: usize) -> Vec<u8> { let mut v = vec![b'a'; pad.min(n)]; while v.len() + 3 <= n { v.extend_from_slice("\u{20ac}".as_bytes()); } while v.len() < n { v.push(b'z'); } v }
+
+fn wide_table(n: usize) -> Vec<(String, TV)> { (0..n).map(|i| (format!("key-{i:05}"), if i % 3 == 0 { TV::I(i as i64) } else { TV::S(format!("v{i}")) })).collect() }
+fn deep_table(depth: usize) -> Vec<(String, TV)> {
+    let mut v = TV::T(vec![("leaf".into(), TV::I(1))]);
+    for i in 0..depth { v = if i % 4 == 3 { TV::T(vec![("list".into(), TV::A(vec![v, TV::I(i as i64)]))]) } else { TV::T(vec![("t".into(), v)]) }; }
+    vec![("deep".into(), v)]
+}
+
+fn directed(tier: &str, seed: u64, emit: &mut dyn FnMut(Case)) {
+    let thorough = tier == "thorough";
+    let mut idx = 0u64;
+    let mut rng = |salt: u64| { idx += 1; Rng::for_case(seed ^ salt, idx) };
+    // (1) many entries: sizes straddling 16, 20, 32, 64, 128, 256 (thorough: 512, 1000, 1024): all files / mixed kinds / one invalid file first, in the middle, last
+    let mut sizes: Vec<usize> = vec![16, 17, 20, 21, 32, 33, 64, 65, 128, 129, 256, 257];
+    if thorough { sizes.extend([512, 513, 1000, 1024, 1025]); }
+    for &n in &sizes {
+        for sub in ["files", "mixed", "bad-first", "bad-middle", "bad-last"] {
+            let mut r = rng(0xA11);
+            let bad_at = match sub { "bad-first" => Some(0), "bad-middle" => Some(n / 2), "bad-last" => Some(n - 1), _ => None };
+            let mut order: Vec<usize> = (0..n).collect();
+            r.shuffle(&mut order); // creation order differs from name order
+            let listing: Vec<String> = order.iter().map(|&i| {
+                let name = format!("VAR_{i:04}").into_bytes();
+                if bad_at == Some(i) { let b: &[u8] = *r.pick(BAD); return entry(&name, if i % 2 == 0 { "f" } else { "lf" }, b); }
+                let k = if sub == "mixed" { *r.pick(&["f", "f", "lf", "lr", "l2", "hf", "d", "de", "ld", "ld2", "dl", "lo"]) } else { "f" };
+                let content: Vec<u8> = if holds_var(k) { if r.chance(1, 4) { r.pick(GOOD).to_vec() } else { format!("value-{i}").into_bytes() } } else { vec![] };
+                entry(&name, k, &content)
+            }).collect();
+            let mut c = with_listing(&mut r, "many", sub, listing, if n % 2 == 1 && sub == "mixed" { "e" } else { "" });
+            if bad_at.is_some() { c.tags.push(("badfiles".into(), "1".into())); }
+            emit(c);
+        }
+    }
+    // (2) big contents: sizes straddling 4 KiB, 8 KiB, 64 KiB (and 16, 32, 128 KiB; thorough 256 KiB): ASCII, 3-byte characters with a pad of
+    //     0 / 1 / 2 bytes (a character across every buffer boundary), a BOM first, a trailing newline / CRLF, an invalid byte first / at 4096 / last
+    let mut csizes: Vec<usize> = vec![4095, 4096, 4097, 8191, 8192, 8193, 16384, 32768, 65535, 65536, 65537, 131072];
+    if thorough { csizes.extend([262143, 262144, 262145]); }
+    for &n in &csizes {
+        let mut variants: Vec<(&str, Vec<u8>)> = vec![("ascii", filler(n, b'x')), ("mb0", multibyte(n, 0)), ("mb1", multibyte(n, 1)), ("mb2", multibyte(n, 2))];
+        { let mut v = "\u{feff}".as_bytes().to_vec(); v.extend(filler(n - 3, b'b')); variants.push(("bom", v)); }
+        { let mut v = filler(n - 1, b'l'); v.push(b'\n'); variants.push(("lf", v)); }
+        { let mut v = filler(n - 2, b'l'); v.extend_from_slice(b"\r\n"); variants.push(("crlf", v)); }
+        { let mut v = filler(n, b'i'); v[0] = 0xff; variants.push(("bad-first", v)); }
+        { let mut v = filler(n, b'i'); v[4096.min(n - 1)] = 0x80; variants.push(("bad-4096", v)); }
+        { let mut v = filler(n, b'i'); v[n - 1] = 0xc3; variants.push(("bad-last", v)); }
+        for (j, (sub, content)) in variants.into_iter().enumerate() {
+            let mut r = rng(0xB16);
+            let k = ["f", "lf", "lr", "hf", "l2"][j % 5];
+            let mut listing = vec![entry(b"BIG", k, &content), entry(b"SMALL", "f", b"s")];
+            if j % 2 == 0 { listing.reverse(); }
+            let mut c = with_listing(&mut r, "bigcontent", sub, listing, "");
+            c.tags.push(("bytes".into(), n.to_string()));
+            if sub.starts_with("bad") { c.tags.push(("badfiles".into(), "1".into())); }
+            emit(c);
+        }
+    }
+    // (3) long names: 1, 2, 100, 200, 254, 255 bytes (NAME_MAX) of ASCII / 3-byte characters / bytes that are not UTF-8
+    for &n in &[1usize, 2, 100, 200, 254, 255] {
+        for (sub, name) in [("ascii", filler(n, b'N')), ("mb", multibyte(n, n % 3)), ("raw", filler(n, 0xfe))] {
+            let mut r = rng(0x7A3E);
+            let c = with_listing(&mut r, "longname", sub, vec![entry(&name, if n % 2 == 0 { "f" } else { "lf" }, b"named"), entry(b"OTHER", "f", b"o")], "");
+            emit(c);
+        }
+    }
+    // (4) every name of the pool once as a regular file and once behind a link, (5) every content of both pools once each way
+    for (i, nm) in NAMES.iter().enumerate() { for k in ["f", VAR_KINDS[1 + i % 4]] { let mut r = rng(0x9A3E); emit(with_listing(&mut r, "names", k, vec![entry(nm, k, b"v")], "")); } }
+    for (i, ct) in GOOD.iter().chain(BAD.iter()).enumerate() {
+        for k in ["f", VAR_KINDS[1 + i % 4]] {
+            let mut r = rng(0xC0A7);
+            let mut c = with_listing(&mut r, "contents", k, vec![entry(b"A", "f", b"a"), entry(b"SUBJECT", k, ct), entry(b"Z", "f", b"z")], "");
+            if !is_utf8(ct) { c.tags.push(("badfiles".into(), "1".into())); }
+            emit(c);
+        }
+    }
+    // (6) correlated names / contents / aliases
+    let groups: Vec<(&str, Vec<String>)> = vec![
+        ("case-variants", vec![entry(b"FOO", "f", b"1"), entry(b"Foo", "f", b"2"), entry(b"foo", "f", b"3"), entry(b"fOO", "lf", b"4")]),
+        ("prefixes", vec![entry(b"A", "f", b"1"), entry(b"A_", "f", b"2"), entry(b"A_B", "f", b"3"), entry(b"A_B_C", "lf", b"4"), entry(b"A.B", "f", b"5"), entry(b"A.B.append", "f", b"6"), entry(b"A ", "f", b"7")]),
+        ("nfc-nfd", vec![entry(b"caf\xc3\xa9", "f", b"nfc"), entry(b"cafe\xcc\x81", "f", b"nfd")]),
+        ("invalid-bytes-apart", vec![entry(b"X\xffY", "f", b"1"), entry(b"X\xfeY", "f", b"2"), entry(b"X\xef\xbf\xbdY", "f", b"3"), entry(b"X\xff\xffY", "lf", b"4")]),
+        ("same-content", vec![entry(b"P", "f", b"same"), entry(b"Q", "lf", b"same"), entry(b"R", "hf", b"same"), entry(b"S", "l2", b"same")]),
+        ("content-is-a-name", vec![entry(b"P", "f", b"Q"), entry(b"Q", "f", b"P"), entry(b"R", "lf", b"R")]),
+        ("named-like-targets", vec![entry(b"f0", "lf", b"zero"), entry(b"f1", "lf", b"one"), entry(b"f2", "lr", b"two"), entry(b"m3", "l2", b"three"), entry(b"h4", "hf", b"four"), entry(b"d5", "ld", b""), entry(b"missing6", "dl", b"")]),
+        ("links-to-one-sibling", vec![entry(b"REAL", "f", b"shared"), entry_sib(b"ALIAS1", "ls", b"shared", b"REAL"), entry_sib(b"ALIAS2", "ls", b"shared", b"REAL"), entry_sib(b"HARD1", "hs", b"shared", b"REAL"), entry_sib(b"HARD2", "hs", b"shared", b"REAL")]),
+        ("sibling-invalid", vec![entry(b"REAL", "f", b"\xff"), entry_sib(b"ALIAS", "ls", b"\xff", b"REAL")]),
+        ("k8s", vec![entry(b"..2024_01_01", "d", b""), entry(b"..data", "ld", b""), entry(b"DATABASE_URL", "lr", b"postgres://u:p@h/db"), entry(b"SECRET", "l2", b"s3cr3t\n")]),
+        ("every-kind", vec![entry(b"K_f", "f", b"1"), entry(b"K_lf", "lf", b"2"), entry(b"K_lr", "lr", b"3"), entry(b"K_l2", "l2", b"4"), entry(b"K_hf", "hf", b"5"), entry_sib(b"K_ls", "ls", b"1", b"K_f"), entry_sib(b"K_hs", "hs", b"1", b"K_f"),
+            entry(b"K_d", "d", b""), entry(b"K_de", "de", b""), entry(b"K_ld", "ld", b""), entry(b"K_ld2", "ld2", b""), entry(b"K_dl", "dl", b""), entry(b"K_lo", "lo", b"")]),
+        ("only-non-files", vec![entry(b"D", "d", b""), entry(b"E", "de", b""), entry(b"L", "ld", b""), entry(b"M", "ld2", b""), entry(b"N", "dl", b""), entry(b"O", "lo", b"")]),
+    ];
+    for (sub, listing) in &groups {
+        for flags in ["", "e", "p", "ep"] {
+            let mut r = rng(0xC022);
+            let mut l = listing.clone();
+            if flags != "" { r.shuffle(&mut l); }
+            let mut c = with_listing(&mut r, "correlated", sub, l, flags);
+            if *sub == "invalid-bytes-apart" || *sub == "sibling-invalid" { c.tags.push(("badfiles".into(), if *sub == "sibling-invalid" { "1" } else { "0" }.into())); }
+            emit(c);
+        }
+    }
+    // (7) the env directory itself: missing / a file / a dangling link / a link to a file, each with the platform directory plain or behind a link
+    for p in ["noplat", "noenv", "notdir", "envdangling", "envlinkfile", "-"] { for flags in ["", "p", "e", "ep"] {
+        let mut r = rng(0xE27);
+        let mut c = with_listing(&mut r, "envdir", p, vec![], flags);
+        c.fields[3] = p.to_string();
+        emit(c);
+    } }
+    // (8) target variables: every value of every pool with the other four at their usual values, variant set / unset; all five equal; long values
+    for k in 0..5 { for v in TARGET_POOL[k] { for variant_set in [true, false] {
+        if k == 2 && !variant_set { continue; }
+        let mut r = rng(0x7A26);
+        let mut c = base_case(&mut r, "targetpool", None);
+        let mut vars: Vec<Option<Vec<u8>>> = vec![Some(b"linux".to_vec()), Some(b"amd64".to_vec()), if variant_set { Some(b"v8".to_vec()) } else { None }, Some(b"ubuntu".to_vec()), Some(b"24.04".to_vec())];
+        vars[k] = Some(v.to_vec());
+        c.fields[2] = var_field(&vars);
+        c.tags.push(("sub".into(), ["os", "arch", "variant", "dname", "dver"][k].into()));
+        emit(c);
+    } } }
+    for v in [&b"same"[..], b"", b"linux", b"\xef\xbb\xbf"] { let mut r = rng(0x7A27); let mut c = base_case(&mut r, "targetpool", None); c.fields[2] = var_field(&vec![Some(v.to_vec()); 5]); c.tags.push(("sub".into(), "all-equal".into())); emit(c); }
+    for n in [255usize, 256, 257, 4095, 4096, 4097, 65536] { for k in 0..5 {
+        let mut r = rng(0x7A28);
+        let mut c = base_case(&mut r, "targetpool", None);
+        let mut vars: Vec<Option<Vec<u8>>> = vec![Some(b"linux".to_vec()), Some(b"amd64".to_vec()), None, Some(b"ubuntu".to_vec()), Some(b"24.04".to_vec())];
+        vars[k] = Some(if n % 2 == 0 { filler(n, b'v') } else { multibyte(n, 1) });
+        c.fields[2] = var_field(&vars);
+        c.tags.push(("sub".into(), "long".into()));
+        emit(c);
+    } }
+    for _ in 0..(if thorough { 4000 } else { 300 }) {
+        let mut r = rng(0x7A29);
+        let mut c = base_case(&mut r, "targetpool", None);
+        let mut vars: Vec<Option<Vec<u8>>> = (0..5).map(|k| Some(r.pick(TARGET_POOL[k]).to_vec())).collect();
+        if r.chance(1, 3) { vars[2] = None; }
+        c.fields[2] = var_field(&vars);
+        c.tags.push(("sub".into(), "cross".into()));
+        emit(c);
+    }
+    // (9) other variables in the process environment (none is an input): names close to the inputs' names, well-known variables
+    let decoy_names: &[&[u8]] = &[b"cnb_target_os", b"Cnb_Target_Os", b"CNB_TARGET_OS_", b"_CNB_TARGET_OS", b"CNB_TARGET_OS ", b"CNB_TARGET", b"CNB_TARGET_VARIANT", b"CNB_TARGET_ARCHVARIANT", b"CNB_TARGET_DISTRO", b"CNB_TARGET_DISTRO_NAME_",
+        b"CNB_TARGET_ID", b"CNB_STACK_ID", b"CNB_PLATFORM_API", b"CNB_BUILDPACK_API", b"CNB_OS", b"CNB_ARCH", b"TARGETOS", b"TARGETARCH", b"TARGETVARIANT", b"GOOS", b"GOARCH", b"OS", b"OSTYPE", b"HOSTTYPE", b"PROCESSOR_ARCHITECTURE",
+        b"PATH", b"HOME", b"LANG", b"LC_ALL", b"TZ", b"RUST_BACKTRACE", b"RUST_LOG", b"NO_COLOR", b"CI", b"DEBUG", b"BP_LOG_LEVEL", b"FOO", b"CNB_TARGET_OS\xff", b"\xc3\x9cBER", b"A B"];
+    for _ in 0..(if thorough { 2000 } else { 200 }) {
+        let mut r = rng(0xDEC0);
+        let forced = *r.pick(&["ok", "ok", "ok", "missing", "d7"]);
+        let mut c = gen_case_phase(&mut r, "decoy", Some(forced), None);
+        let mut names: Vec<&[u8]> = vec![];
+        for _ in 0..r.range(1, 6) { let n = *r.pick(decoy_names); if !names.contains(&n) { names.push(n); } }
+        let others: Vec<String> = names.iter().map(|n| { let k = r.below(5) as usize; let v: &[u8] = *r.pick(TARGET_POOL[k]); format!("{}={}", hex(n), hex(v)) }).collect();
+        c.fields.push(join(",", &others));
+        c.tags.push(("others".into(), others.len().to_string()));
+        c.nontrivial = true;
+        emit(c);
+    }
+    // (10) big documents: buildpack plans with n entries, store / descriptor metadata n keys wide or up to 48 levels deep, descriptors with n
+    //      keywords / licenses / stacks / targets / distros; n straddling 16, 32, 64, 128, 256 (thorough: 1024)
+    let mut dsizes: Vec<usize> = vec![16, 17, 32, 33, 64, 65, 128, 129, 256, 257];
+    if thorough { dsizes.extend([1024, 1025]); }
+    for &n in &dsizes {
+        let mut r = rng(0xB1D0);
+        let mut c = base_case(&mut r, "bigdoc", Some("build"));
+        let plan: PlanData = (0..n).map(|i| (format!("entry-{i}"), if i % 5 == 4 { None } else { Some(vec![("version".to_string(), TV::S(format!("{i}.0"))), ("n".to_string(), TV::I(i as i64)), ("nested".to_string(), TV::T(vec![("k".to_string(), TV::B(i % 2 == 0))]))]) })).collect();
+        let st = cnbv::tomllayout::Style::directed(if n % 2 == 0 { 0 } else { 3 });
+        c.fields[4] = hex(cnbv::tomllayout::emit(&plan_value(&plan, false), &st, &mut r).as_bytes()); c.fields[5] = plan_expected(&plan);
+        let store = vec![("wide".to_string(), TV::T(wide_table(n))), ("list".to_string(), TV::A((0..n).map(|i| TV::I(i as i64)).collect()))];
+        let mut sdoc = toml::Table::new(); sdoc.insert("metadata".into(), toml::Value::Table(tv_table(&store)));
+        c.fields[6] = hex(cnbv::tomllayout::emit(&sdoc, &st, &mut r).as_bytes()); c.fields[7] = canon_table(&store);
+        let mut d = draw_desc(&mut r);
+        d.keywords = (0..n).map(|i| format!("kw{i}")).collect();
+        d.licenses = (0..n).map(|i| (Some(format!("L-{i}")), if i % 2 == 0 { Some(format!("https://example.tld/{i}")) } else { None })).collect();
+        d.stacks = (0..n).map(|i| (format!("stack-{i}"), (0..i % 3).map(|j| format!("m{j}")).collect(), false)).collect();
+        d.targets = (0..n).map(|i| (Some("linux".to_string()), Some(["amd64", "arm64"][i % 2].to_string()), None, (0..(if i == 0 { n } else { i % 3 })).map(|j| ("ubuntu".to_string(), format!("{j}.04"))).collect())).collect();
+        d.sbom = (0..n).map(|i| i % 3).collect();
+        d.metadata = Some(wide_table(n));
+        c.fields[8] = hex(cnbv::tomllayout::emit(&desc_value(&d), &st, &mut r).as_bytes()); c.fields[9] = desc_expected(&d);
+        c.tags.push(("n".into(), n.to_string()));
+        emit(c);
+    }
+    for &depth in &[8usize, 16, 32, 48] {
+        let mut r = rng(0xDEE9);
+        let mut c = base_case(&mut r, "bigdoc", Some("build"));
+        let md = deep_table(depth);
+        let plan: PlanData = vec![("deep".to_string(), Some(md.clone()))];
+        let st = cnbv::tomllayout::Style::plain();
+        c.fields[4] = hex(cnbv::tomllayout::emit(&plan_value(&plan, false), &st, &mut r).as_bytes()); c.fields[5] = plan_expected(&plan);
+        let mut sdoc = toml::Table::new(); sdoc.insert("metadata".into(), toml::Value::Table(tv_table(&md)));
+        c.fields[6] = hex(cnbv::tomllayout::emit(&sdoc, &st, &mut r).as_bytes()); c.fields[7] = canon_table(&md);
+        let mut d = draw_desc(&mut r); d.metadata = Some(md.clone());
+        c.fields[8] = hex(cnbv::tomllayout::emit(&desc_value(&d), &st, &mut r).as_bytes()); c.fields[9] = desc_expected(&d);
+        c.tags.push(("depth".into(), depth.to_string()));
+        emit(c);
+    }
+    // (11) plan / store / descriptor in other TOML layouts (dotted keys, inline tables and arrays of inline tables, sub-table headers, implicit
+    //      super-tables, keys shuffled, quoted keys, literal / multi-line / escaped strings, other number spellings, CRLF, BOM, comments, blank
+    //      lines, indentation, no final newline): every directed style three times, then seeded random styles
+    let n_layout = if thorough { 6000 } else { 400 };
+    for i in 0..(3 * cnbv::tomllayout::Style::N_DIRECTED + n_layout) {
+        let mut r = rng(0x1A70);
+        let mut c = base_case(&mut r, "layout", Some(if i % 4 == 3 { "detect" } else { "build" }));
+        let (st, tag) = if i < 3 * cnbv::tomllayout::Style::N_DIRECTED { let st = cnbv::tomllayout::Style::directed(i); let t = st.tag(); (st, t) } else { (cnbv::tomllayout::Style::random(&mut r), "random".to_string()) };
+        if c.fields[0] == "build" {
+            let plan = draw_plan(&mut r);
+            let explicit = r.chance(1, 2);
+            c.fields[4] = hex(cnbv::tomllayout::emit(&plan_value(&plan, explicit), &st, &mut r).as_bytes()); c.fields[5] = plan_expected(&plan);
+            let md = gen_table(&mut r, 1);
+            let mut sdoc = toml::Table::new(); sdoc.insert("metadata".into(), toml::Value::Table(tv_table(&md)));
+            c.fields[6] = hex(cnbv::tomllayout::emit(&sdoc, &st, &mut r).as_bytes()); c.fields[7] = canon_table(&md);
+        }
+        let d = draw_desc(&mut r);
+        c.fields[8] = hex(cnbv::tomllayout::emit(&desc_value(&d), &st, &mut r).as_bytes()); c.fields[9] = desc_expected(&d);
+        c.tags.push(("layout".into(), tag));
+        emit(c);
+    }
+}
+
 fn generate(tier: &str, seed: u64, emit: &mut dyn FnMut(Case)) {
-    let n = if tier == "thorough" { 40_000 } else { 2_000 };
+    let n = if tier == "thorough" { 40_000 } else { 3_000 };
     // a fixed head: every target class once per phase draw, so the tagged minorities are present whatever the seed
     for (k, cls) in ["ok", "missing", "nonutf8", "d7", "mix", "ok", "missing", "nonutf8", "d7"].iter().enumerate() {
         let mut r = Rng::for_case(seed ^ 0xC06, k as u64);
         emit(gen_case(&mut r, "head", Some(cls)));
     }
+    directed(tier, seed, emit);
     for idx in 0..n { let mut r = Rng::for_case(seed, idx); emit(gen_case(&mut r, "gen", None)); }
 }
 
